@@ -131,6 +131,7 @@ func c04Gen(rng *rand.Rand, tier string) []core.Spec {
 		sp := &ReaderSpec{Prop: 4, Server: server, Negotiated: negotiated, RBuf: core.Pick(rng, rbufChoices),
 			Chunks: chunkStream(rng, stream, bounds), Fault: 0, Cmp: true, Drains: true, Note: name}
 		sp.Custom = rng.Intn(2) == 0
+		sp.StaleWDL = rng.Intn(3) == 0
 		sp.Ops = append(genReadProgram(rng, nm), drainOps(nm+3)...)
 		out = append(out, sp)
 	}
@@ -214,12 +215,16 @@ func c05Gen(rng *rand.Rand, tier string) []core.Spec {
 		fw.Write([]byte("hello hello hello, final block"))
 		fw.Close()
 		wire := append(append([]byte{}, z.Bytes()...), 0x00)
-		for _, split := range []bool{false, true} {
+		for split := 0; split < 3; split++ {
 			k := genKey(rng)
 			var frames []Frame
-			if split {
+			switch split {
+			case 1:
 				frames = []Frame{{Fin: false, Rsv: 4, Op: 1, Masked: server, Key: k, Payload: wire[:len(wire)-1]}, {Fin: true, Op: 0, Masked: server, Key: k, Payload: wire[len(wire)-1:]}}
-			} else {
+			case 2: // the stream, the remaining 0x00 octet, then an empty final fragment
+				frames = []Frame{{Fin: false, Rsv: 4, Op: 1, Masked: server, Key: k, Payload: wire[:len(wire)-1]}, {Fin: false, Op: 0, Masked: server, Key: k, Payload: wire[len(wire)-1:]},
+					{Fin: true, Op: 0, Masked: server, Key: k, Payload: nil}}
+			default:
 				frames = []Frame{{Fin: true, Rsv: 4, Op: 1, Masked: server, Key: k, Payload: wire}}
 			}
 			stream, _ := encodeAll(frames)
@@ -232,6 +237,42 @@ func c05Gen(rng *rand.Rand, tier string) []core.Spec {
 							sp.Chunks = []B{B(stream[:cut])}
 						}
 						out = append(out, sp)
+					}
+				}
+			}
+		}
+	}
+	// a frame larger than the application's buffer, which is at least as large as the read buffer
+	// (reads go straight to the transport), cut exactly where a read fills the buffer, the fault
+	// delivered with those bytes
+	for _, server := range []bool{false, true} {
+		for _, m := range []int{125, 126, 200, 256} {
+			for _, rb := range []int{125, 126} {
+				if m < rb {
+					continue
+				}
+				for _, final := range []bool{true, false} {
+					k := genKey(rng)
+					frames := []Frame{{Fin: final, Op: 2, Masked: server, Key: k, Payload: genPayload(rng, 3*m+17, k)}}
+					if !final {
+						frames = append(frames, Frame{Fin: true, Op: 0, Masked: server, Key: k, Payload: genPayload(rng, 5, k)})
+					}
+					stream, bounds := encodeAll(frames)
+					hdr := bounds[0] - (3*m + 17)
+					for nfull := 1; nfull <= 3; nfull++ {
+						for fault := 0; fault < 3; fault++ {
+							chunks := []B{B(stream[:hdr])}
+							for j := 0; j < nfull; j++ {
+								chunks = append(chunks, B(stream[hdr+j*m:hdr+(j+1)*m]))
+							}
+							sp := &ReaderSpec{Prop: 5, Server: server, RBuf: rb, Chunks: chunks, Fault: fault, Glued: true, Cmp: true, Drains: true, Note: "cut-where-a-read-fills-the-buffer"}
+							sp.Ops = []ROp{{K: 0}}
+							for r := 0; r < 6; r++ {
+								sp.Ops = append(sp.Ops, ROp{K: 1, M: m})
+							}
+							sp.Ops = append(sp.Ops, drainOps(3)...)
+							out = append(out, sp)
+						}
 					}
 				}
 			}
@@ -420,6 +461,7 @@ func c06Gen(rng *rand.Rand, tier string) []core.Spec {
 		}
 		stream, bounds := encodeAll(frames)
 		sp := &ReaderSpec{Prop: 6, Server: server, RBuf: core.Pick(rng, rbufChoices), Chunks: chunkStream(rng, stream, bounds), Fault: 0, Cmp: true, Drains: true, Note: note}
+		sp.StaleWDL = rng.Intn(3) == 0
 		if i%10 == 5 && rng.Intn(2) == 0 {
 			L = 0
 		}
@@ -458,7 +500,9 @@ func c08Gen(rng *rand.Rand, tier string) []core.Spec {
 		sp.Custom = rng.Intn(2) == 0
 		if sp.Custom && rng.Intn(3) == 0 {
 			sp.HFail = []int{rng.Intn(4)}
+			sp.HTimeout = rng.Intn(2) == 0
 		}
+		sp.StaleWDL = rng.Intn(4) == 0
 		sp.Ops = append(genReadProgram(rng, len(msgs)), drainOps(len(msgs)+3)...)
 		out = append(out, sp)
 	}
